@@ -23,9 +23,11 @@ PROP = 'C13'
 LEVEL = 'proof'
 PROPS_MODULES = ['RTV.Props.C13']
 GEN = ['chartables', 'regexes']
-REQUIRED_THEOREMS = ['octet_lang', 'ipv4_lang', 'ipv4_sound', 'ipv4_unsound_unicode_digits', 'ipv4_complete_unique',
-                     'ipv4_reported_span', 'drop_zeros_same_address', 'drop_zeros_canonical', 'drop_zeros_groupwise',
-                     'ip_extract_sound', 'ip_extract_v4_valid']
+REQUIRED_THEOREMS = ['octet_lang', 'ipv4_lang', 'ipv4_sound', 'prefix_ipv4_unsound_unicode_digits',
+                     'ipv4_rejects_unicode_digit_witness', 'ipv4_complete_unique', 'ipv4_reported_span',
+                     'drop_zeros_same_address', 'drop_zeros_canonical', 'drop_zeros_groupwise', 'ip_extract_sound',
+                     'ip_extract_v4_valid', 'guid_lang', 'guid_sound', 'guid_complete_unique_plain',
+                     'guid_complete_unique_braced', 'guid_extract_sound']
 RULE = ('regex correspondence: per translated pattern, strings sampled from the pattern, mutated, embedded in contexts '
         'built from the pattern\'s own class boundaries; unit: drop_leading_zeros / extractors / score_guid on IP- and '
         'GUID-shaped strings with ellipsis boundary contexts; pipeline: boundary octets {0,9,10,99,100,199,200,249,250,255}^4 '
@@ -463,13 +465,10 @@ def correspond(ctx):
     unit_guid(ctx, impl, gq, guid_texts + [t for t in gq if len(t) < 80][:400])
     ctx.sample({'op': 'recognize_ip_address', 'query': 'ip 010.0.0.255 here',
                 'implementation': fmt_model_results(impl.ip('ip 010.0.0.255 here'))})
-    # replay the witness of the negative theorem ipv4_unsound_unicode_digits on the implementation
+    # the witness of the regression theorem prefix_ipv4_unsound_unicode_digits (defect #8, fixed by /repo d5d414a77)
+    # stays in the corpus (`near` above: '1.2.3.٤', '1.2.3.４', '::٤'); a revert is reported as ipv4-/ipv6-unicode-digit
     w = '1.2.3.٤'
-    rs = impl.ip(w)
-    ctx.extra['negative_witness_replay'] = {'query': w, 'reported': fmt_model_results(rs)}
-    if not any(x.text == w for x in rs):
-        ctx.notes.append('the witness of ipv4_unsound_unicode_digits (%r) is no longer reported by the implementation: '
-                         'the implementation no longer follows the model with the engine tables' % w)
+    ctx.extra['regression_witness_replay'] = {'query': w, 'reported': fmt_model_results(impl.ip(w))}
 
 
 def search(ctx, proof_problems):
